@@ -411,8 +411,7 @@ def post_read(v, st, out, k):
 @harness(PROP, SR + '._read', setup=_with_pr)
 def _read(v):
     st = mk(v)
-    k = v.int('size', 0)
-    v.assume(k <= st.rem + st.nB)  # what _normalize_size guarantees (proved above)
+    k = v.int('size', 0)  # any size >= 0 (_read_until passes sizes beyond the normalized bound)
     out = v.call(st.s, k)
     if post_read(v, st, out, k):
         if st.nB >= k:
@@ -441,93 +440,665 @@ def read(v):
         v.cover('returns')
 
 
-# ---------------------------------------------------------------------------
-# _read_until (+ _finalize_read_until, _read, peek, _fill_buffer inlined): delimiter search across chunks
+# ===========================================================================
+# PART B -- the window domain.
+#
+# Every bytes value the readers ever handle is a *window* T[a:b] of one fixed
+# prophecy string T = (initial buffer content) ++ (everything the source will
+# deliver): the readers only slice and concatenate what they were given.  In
+# this part bytes values are therefore represented by their two indices (class
+# Win); slicing is index arithmetic, and `x + y` is the window [x.a, y.b) --
+# with the proof obligation, generated at EVERY concatenation the code
+# performs, that y starts where x ends ("consumed data is never returned twice
+# or skipped", "in order").  All obligations become linear integer arithmetic,
+# decided by z3 in milliseconds, for all data, chunkings and sizes.
+#
+# Delimiter search: first(x) = index of the first occurrence of the (one)
+# delimiter of the harness in T at or after x, or -1.  window.find(d, s) is, by
+# definition of bytes.find for a non-empty d, first(a+s) if that occurrence lies
+# wholly inside the window, else -1.  `first` is an uninterpreted function; for
+# the finitely many points x it is applied to on a path, the ground instances of
+# its defining property are assumed:
+#     first(x) == -1  or  x <= first(x) <= len(T) - len(d)
+#     x <= y and (first(x) == -1 or y <= first(x))  ==>  first(y) == first(x)
+# (both are true of the real first-occurrence function), and
+#     T[p:p+n] == d   <=>   n == len(d) and first(p) == p.
+# In concrete replay windows are plain bytes over a patterned T.
+
+_CURW = [None]
+
+
+class World:
+    """The prophecy string T in which all bytes values of one path live (T itself is never needed symbolically)."""
+
+    def __init__(self, v):
+        self.v = v
+        self.T = None  # concrete replay only
+        self.dl = None
+        self.delim = None
+        self.points = []
+        self.memo = {}
+        self.F = z3.Function('first_occurrence_at_or_after', z3.IntSort(), z3.IntSort())
+        self.lenT = 0
+        _CURW[0] = self
+
+    def win(self, a, b):
+        """T[a:b] (0 <= a <= b)."""
+        if self.v.concrete:
+            return self.T[a:b] if b > a else b''
+        return Win(self, a, b)
+
+    def fresh_win(self, ctx, base='w'):
+        a = ctx.fresh_int(base + '_a')
+        b = ctx.fresh_int(base + '_b')
+        ctx.assume(And(0 <= a, a <= b))
+        return Win(self, a, b)
+
+    def first(self, x):
+        """Index of the first occurrence of the delimiter in T at or after x (x >= 0), or -1."""
+        if self.v.concrete:
+            return self.T.find(self.delim, x)
+        key = str(z3.simplify(_i(x)))
+        if key in self.memo:
+            return self.memo[key]
+        ctx = self.v.ctx
+        j = mk_int(self.F(_i(x)))
+        ctx.assume(Or(j == -1, And(j >= x, j + self.dl <= self.lenT)))
+        for y, jy in self.points:
+            ctx.assume(Implies(And(x <= y, Or(j == -1, y <= j)), jy == j))
+            ctx.assume(Implies(And(y <= x, Or(jy == -1, x <= jy)), j == jy))
+        self.points.append((x, j))
+        self.memo[key] = j
+        return j
+
+    def is_delim_at(self, p, n):
+        """T[p:p+n] == delimiter."""
+        return And(n == self.dl, self.first(p) == p)
+
+
+def mk_int(t):
+    from pyvc.core import mk_int as _mk
+
+    return _mk(t)
+
+
+def _sym_false(c):
+    """True iff the condition c cannot be excluded on this path (non-forking feasibility test)."""
+    if isinstance(c, bool):
+        return c
+    ctx = cur()
+    return ctx._safe_check(c.t) != z3.unsat
+
+
+@stubclass
+class Win:
+    """The bytes value T[a:b]."""
+
+    def __init__(self, w, a, b):
+        self.w, self.a, self.b = w, a, b
+
+    def __repr__(self):
+        return '<Win %s:%s>' % (self.a, self.b)
+
+    def __pyvc_len__(self):
+        return self.b - self.a
+
+    def __pyvc_truth__(self):
+        return self.b > self.a
+
+    def __pyvc_isinstance__(self, cls):
+        return cls in (bytes, object) or (isinstance(cls, tuple) and bytes in cls)
+
+    def __pyvc_getitem__(self, k):
+        if not isinstance(k, slice) or k.step not in (None, 1):
+            raise Unreached('indexing a single byte of a window')
+        n = self.b - self.a
+
+        def clamp(x, default):
+            if x is None:
+                return default
+            return Ite(x < 0, Max(n + x, 0), Min(x, n))
+
+        lo = clamp(k.start, 0)
+        hi = Max(clamp(k.stop, n), lo)
+        return Win(self.w, self.a + lo, self.a + hi)
+
+    def _cat(self, x, y):
+        """x ++ y for two windows: defined (as a window) only when y starts where x ends -- an obligation on the subject."""
+        lx, ly = x.b - x.a, y.b - y.a
+        self.w.v.check('bytes-are-joined-in-stream-order-without-gap-or-overlap', Or(lx == 0, ly == 0, x.b == y.a))
+        a = Ite(lx == 0, y.a, x.a)
+        b = Ite(ly == 0, Ite(lx == 0, y.b, x.b), y.b)
+        return Win(self.w, a, b)
+
+    def __pyvc_add__(self, o):
+        if isinstance(o, Win):
+            return self._cat(self, o)
+        if isinstance(o, (bytes, bytearray)) and len(o) == 0:
+            return self
+        raise Unreached('window + %r' % (o,))
+
+    def __pyvc_radd__(self, o):
+        if isinstance(o, Win):
+            return self._cat(o, self)
+        if isinstance(o, (bytes, bytearray)) and len(o) == 0:
+            return self
+        raise Unreached('%r + window' % (o,))
+
+    def find(self, sub, start=0):
+        w = self.w
+        if not (sub is w.delim or (isinstance(sub, bytes) and sub == w.delim_bytes)):
+            raise Unreached('find of something that is not the delimiter of this harness')
+        if _sym_false(Or(start < 0, w.dl < 1)):
+            raise Unreached('find with a negative start or an empty delimiter')
+        j = w.first(self.a + start)
+        return Ite(And(j != -1, j + w.dl <= self.b), j - self.a, -1)
+
+    def __pyvc_eq__(self, o):
+        if isinstance(o, Delim) or (isinstance(o, bytes) and o and o == self.w.delim_bytes):
+            return self.w.is_delim_at(self.a, self.b - self.a)
+        if isinstance(o, (bytes, bytearray)) and len(o) == 0:
+            return self.b == self.a
+        raise Unreached('comparison of a window with %r' % (o,))
+
+    def __pyvc_havoc__(self, ctx, base):
+        return self.w.fresh_win(ctx, base)
+
+
+@stubclass
+class Delim:
+    """The delimiter of the harness (symbolic mode): only its length and its occurrences in T matter."""
+
+    def __init__(self, w):
+        self.w = w
+
+    def __pyvc_len__(self):
+        return self.w.dl
+
+    def __pyvc_truth__(self):
+        return self.w.dl > 0
+
+    def __pyvc_eq__(self, o):
+        if isinstance(o, Win):
+            return o.__pyvc_eq__(self)
+        if isinstance(o, (bytes, bytearray)) and len(o) == 0:
+            return self.w.dl == 0
+        raise Unreached('comparison of the delimiter with %r' % (o,))
+
+
+@stubclass
+class WinList:
+    """A list of windows of symbolic length, kept as a summary: length, concatenation, first element."""
+
+    __pyvc_list_summary__ = True
+
+    def __init__(self, n=0, joined=b'', first=b''):
+        self.n, self.joined, self.first_ = n, joined, first
+
+    @staticmethod
+    def of(items):
+        wl = WinList()
+        for x in items:
+            wl.append(x)
+        return wl
+
+    def append(self, x):
+        if isinstance(self.first_, Win) and isinstance(x, Win):
+            e = self.n == 0
+            self.first_ = Win(x.w, Ite(e, x.a, self.first_.a), Ite(e, x.b, self.first_.b))
+        elif isinstance(self.n, int) and self.n == 0:
+            self.first_ = x
+        elif not isinstance(x, Win) and isinstance(x, bytes) and isinstance(self.first_, Win):
+            e = self.n == 0
+            self.first_ = Win(self.first_.w, Ite(e, self.first_.a, self.first_.a), Ite(e, self.first_.a, self.first_.b))
+        else:
+            raise Unreached('WinList.append of %r' % (x,))
+        self.joined = cat(self.joined, x)
+        self.n = self.n + 1
+
+    def __pyvc_len__(self):
+        return self.n
+
+    def __pyvc_truth__(self):
+        return self.n > 0
+
+    def __pyvc_join__(self, interp, sep):
+        if not (isinstance(sep, (bytes, bytearray)) and len(sep) == 0):
+            raise Unreached('join of windows with a non-empty separator')
+        return self.joined
+
+    def __pyvc_getitem__(self, k):
+        if isinstance(k, int) and k == 0:
+            c = cur()
+            if c.branch(z3.simplify(_i(self.n) == 0), label='index-oob'):
+                c.raise_py(IndexError, 'list index out of range')
+            return self.first_
+        raise Unreached('WinList index other than 0')
+
+    def __pyvc_havoc__(self, ctx, base):
+        w = _CURW[0]
+        n = ctx.fresh_int(base + '_n')
+        j = w.fresh_win(ctx, base + '_joined')
+        f = w.fresh_win(ctx, base + '_first')
+        ctx.assume(n >= 0)
+        ctx.assume(Implies(n == 0, j.b == j.a))
+        ctx.assume(Implies(n == 1, Or(And(f.a == j.a, f.b == j.b), And(f.a == f.b, j.a == j.b))))
+        ctx.assume(Implies(n >= 1, Or(f.a == f.b, And(f.a == j.a, f.b <= j.b))))
+        return WinList(n, j, f)
+
+    def __pyvc_iter__(self):
+        raise Unreached('iteration over a list of symbolic length without an invariant')
+
+
+def cat(x, y):
+    """x ++ y over windows / plain bytes."""
+    if isinstance(x, Win):
+        return x.__pyvc_add__(y)
+    if isinstance(y, Win):
+        return y.__pyvc_radd__(x)
+    return x + y
+
+
+def WJoined(xs):
+    if isinstance(xs, WinList):
+        return xs.joined
+    out = b''
+    for x in xs:
+        out = cat(out, x)
+    return out
+
+
+def bounds(x):
+    """(a, b) of a bytes value of the window domain; the empty constant has no position."""
+    if isinstance(x, Win):
+        return x.a, x.b
+    if isinstance(x, (bytes, bytearray)) and len(x) == 0:
+        return 0, 0
+    raise Unreached('not a window: %r' % (x,))
+
+
+def is_window(w, x, a, n):
+    """x == T[a : a+n]   (n <= 0: x is empty)."""
+    if w.v.concrete:
+        return x == (w.T[a : a + n] if n > 0 else b'')
+    xa, xb = bounds(x)
+    return Or(And(n <= 0, xb == xa), And(n > 0, xa == a, xb == a + n))
+
+
+def _pattern(n, delim=None, at=-1):
+    t = bytearray(1 + (i * 7) % 250 for i in range(max(n, 0)))
+    if delim and 0 <= at and at + len(delim) <= n:
+        t[at : at + len(delim)] = delim
+    return bytes(t)
+
+
+@stubclass
+class WGhostBytesIO(GhostBytesIO):
+    def seek(self, pos, whence=0):
+        if whence != 0 or _sym_false(pos != Len(self.value)):
+            raise Unreached('io.BytesIO.seek to a position other than the end of the accumulated value')
+        return pos
+
+    def write(self, data):
+        self.value = cat(self.value, data)
+        return Len(data)
+
+
+@stubclass
+class WSink:
+    """A destination with write(): accumulates what was written (ghost)."""
+
+    def __init__(self):
+        self.written = b''
+        self.writes = 0
+
+    def write(self, data):
+        self.written = cat(self.written, data)
+        self.writes = self.writes + 1
+        return Len(data)
+
+
+@stubclass
+class WReadFunc:
+    """The source callable: a cursor over T[base : base+srclen]."""
+
+    def __init__(self, v, w, srclen):
+        self.v, self.w, self.srclen = v, w, srclen
+        self.pos = 0
+        self.reader = None
+        self.calls = 0
+
+    def __call__(self, n):
+        v = self.v
+        rem = v.get(self.reader, '_max_bytes_remaining')
+        v.check('source-asked-for-a-positive-size-within-the-declared-remaining-length', And(n > 0, n <= rem))
+        avail = self.srclen - self.pos
+        k = v.int('k_read', 0)
+        if v.concrete and (k == 0 or k > min(n, avail)):
+            k = min(n, avail)
+        v.assume(And(k <= n, k <= avail, Implies(k == 0, avail == 0)))
+        base = self.w.base
+        r = self.w.win(base + self.pos, base + self.pos + k)
+        self.pos = self.pos + k
+        self.calls += 1
+        return r
+
+
+def mkw(v, delim=None):
+    """A sync reader in an arbitrary state satisfying the representation invariant (window domain).
+
+    delim: None (no delimiter in this harness) | 'any' (symbolic delimiter of any length) | bytes (that literal)."""
+    st = St()
+    w = World(v)
+    st.w = w
+    st.bl0 = v.int('buf_len', 0)
+    st.bp = v.int('bp', 0)
+    v.assume(st.bp <= st.bl0)
+    st.rem = v.int('rem', 0)
+    st.cs = v.int('chunk_size', 1)
+    st.srclen = v.int('src_len', 0)
+    w.base = st.bl0
+    w.lenT = st.bl0 + st.srclen
+    st.a0 = st.bp
+    st.nB = st.bl0 - st.bp
+    st.nS = Min(st.rem, st.srclen)
+    st.nV = st.nB + st.nS
+    st.end = st.a0 + st.nV
+    w.delim_bytes = None
+    if delim is not None:
+        if delim == 'any':
+            w.dl = v.int('delim_len', 0)
+        else:
+            w.dl = len(delim)
+            w.delim_bytes = delim
+        j0 = v.int('first_occurrence', -1)
+        if v.concrete:
+            d = delim if delim != 'any' else bytes([255] + [254] * (w.dl - 1))[: max(w.dl, 0)]
+            w.delim = d
+            w.delim_bytes = d
+            w.T = _pattern(w.lenT, d, j0)
+        else:
+            w.delim = Delim(w) if delim == 'any' else delim
+            v.assume(Implies(w.dl >= 1, j0 == w.first(st.a0)))
+        st.delim = w.delim
+    elif v.concrete:
+        w.T = _pattern(w.lenT)
+    st.buf = w.win(0, st.bl0)
+    st.rf = WReadFunc(v, w, st.srclen)
+    st.s = v.obj(SR, _read_func=st.rf, _chunk_size=st.cs, _max_join_size=st.cs * v.real(SM + ':_MAX_JOIN_CHUNKS'), _buffer=st.buf,
+                 _buffer_len=st.bl0, _buffer_pos=st.bp, _max_bytes_remaining=st.rem)
+    st.rf.reader = st.s
+    st.rf.st = st
+    return st
+
+
+def wcoupled_term(st, buf, bl, bp, rem, rf, c):
+    """The reader is the flat cursor over V0 = T[a0 : a0+nV] at offset c: its look-ahead window is T[a0+c : a0+c+nB], the source
+    cursor stands right behind it, the budget is what is left of the declared length (0 once the end of the source was seen).
+    Hence V(state) = V0[c:]; the three conjuncts of the representation invariant are part of it."""
+    w = st.w
+    nB = bl - bp
+    pos = rf.pos
+    ints = And(0 <= bp, bp <= bl, rem >= 0, c >= 0, w.base + pos == st.a0 + c + nB, 0 <= pos, pos <= st.srclen, pos <= st.rem,
+               Or(rem == st.rem - pos, And(rem == 0, pos == st.srclen)))
+    if w.v.concrete:
+        return bool(ints) and bl == len(buf) and (buf[bp:bl] == w.T[st.a0 + c : st.a0 + c + nB])
+    ba, bb = bounds(buf)
+    return And(ints, bl == bb - ba, Implies(bl > 0, ba + bp == st.a0 + c))  # (a consumed-but-kept buffer prefix still lies right before the cursor)
+
+
+def wcoupled(v, st, c):
+    return wcoupled_term(st, *fields(v, st.s), c)
+
+
+def wcheck_inv(v, s):
+    buf, bl, bp, rem, rf = fields(v, s)
+    v.check('invariant-buffer-len-is-len-of-buffer', bl == Len(buf))
+    v.check('invariant-buffer-pos-within-buffer', And(0 <= bp, bp <= bl))
+    v.check('invariant-budget-nonnegative', rem >= 0)
+
+
+def wpr_contract(I, self, size):
+    """Callee contract of _perform_read (proved by `perform_read` / `w_perform_read`), exact and deterministic."""
+    rf = self._fields['_read_func']
+    rem = self._fields['_max_bytes_remaining']
+    m = Max(0, Min(size, rem))
+    r = Min(m, rf.srclen - rf.pos)
+    base = rf.w.base
+    out = rf.w.win(base + rf.pos, base + rf.pos + r)
+    rf.pos = rf.pos + r
+    self._fields['_max_bytes_remaining'] = Ite(r == m, rem - r, 0)
+    return out
+
+
+def _wbytesio(reg):
+    import io
+
+    reg.add_model(io.BytesIO, lambda I, *a: WGhostBytesIO(*a))
+
+
+def _w(reg, ex):
+    _wbytesio(reg)
+    reg.stubs[SR + '._perform_read'] = wpr_contract
+
+
+# --- _perform_read once more, over windows (cross-check of the string-level proof above; same contract) -------------
+
+
+def _wpr_loop(reg, ex):
+    _wbytesio(reg)
+
+    def linv(L):
+        s = L['self']
+        rf = s._read_func
+        got = rf.pos - rf.pos0
+        return And(rf.pos0 <= rf.pos, rf.pos <= rf.srclen, is_window(rf.w, L['result'].value, rf.w.base + rf.pos0, got), got > 0,
+                   s._max_bytes_remaining == rf.rem0 - got, L['size'] - L['chunk_len'] == rf.m - got, L['size'] - L['chunk_len'] >= 0)
+
+    def havoc(ctx, L):
+        L['result'].value = L['self']._read_func.w.fresh_win(ctx, 'hv_acc')
+        L['self']._read_func.pos = ctx.fresh_int('hv_pos')
+
+    reg.loops[(SR + '._perform_read', 'while#0')] = LoopSpec(inv=linv, havoc=havoc)
+
+
+@harness(PROP, SR + '._perform_read', name='w_perform_read', setup=_wpr_loop)
+def w_perform_read(v):
+    st = mkw(v)
+    s, rf, w = st.s, st.rf, st.w
+    pos0 = v.int('pos0', 0)
+    v.assume(pos0 <= st.srclen)
+    rf.pos = pos0
+    n = v.int('n')
+    m = Max(0, Min(n, st.rem))
+    r = Min(m, st.srclen - pos0)
+    rf.pos0, rf.rem0, rf.m = pos0, st.rem, m
+    out = v.call(s, n)
+    v.check('no-exception', out.exc is None)
+    if out.exc is not None:
+        return
+    buf, bl, bp, rem, _ = fields(v, s)
+    v.check('returns-the-next-source-bytes-min-of-size-and-budget-short-only-at-end-of-source', is_window(w, out.value, w.base + pos0, r))
+    v.check('source-cursor-advances-by-exactly-the-returned-bytes', rf.pos == pos0 + r)
+    v.check('budget-deducts-the-returned-bytes-and-drops-to-zero-at-end-of-source', rem == Ite(r == m, st.rem - r, 0))
+    v.check('buffer-untouched', And(buf is st.buf, bl == st.bl0, bp == st.bp))
+    wcheck_inv(v, s)
+    if rf.calls >= 2:
+        v.cover('loops-on-a-short-read')
+
+
+# --- flat-cursor contracts over windows: _fill_buffer / peek / _read / read ---------------------------------------------
+
+
+def _ret_ok(v, out):
+    v.check('no-exception', out.exc is None)
+    return out.exc is None
+
+
+@harness(PROP, SR + '._fill_buffer', name='w_fill_buffer', setup=_w)
+def w_fill_buffer(v):
+    st = mkw(v)
+    out = v.call(st.s)
+    if not _ret_ok(v, out):
+        return
+    buf, bl, bp, rem, rf = fields(v, st.s)
+    wcheck_inv(v, st.s)
+    v.check('view-unchanged', wcoupled(v, st, 0))
+    v.check('buffered-at-least-a-chunk-or-all-of-the-view', bl - bp == Ite(st.nB >= st.cs, st.nB, Min(st.cs, st.nV)))
+    if st.nB < st.cs:
+        v.cover('refills')
+
+
+@harness(PROP, SR + '.peek', name='w_peek', setup=_w, inline=[SR + '._fill_buffer'])
+def w_peek(v):
+    st = mkw(v)
+    given = v.choose(2, 'size-given?')
+    size = v.int('size') if given else -1
+    out = v.call(st.s, size) if given else v.call(st.s)
+    if not _ret_ok(v, out):
+        return
+    n = peek_size(size, st.cs)
+    wcheck_inv(v, st.s)
+    v.check('returns-the-next-bytes-of-the-view-up-to-the-clamped-size', is_window(st.w, out.value, st.a0, Min(n, st.nV)))
+    v.check('view-unchanged', wcoupled(v, st, 0))
+    v.cover('returns')
+
+
+def wpost_read(v, st, out, k):
+    """Flat cursor: returned V0[:k] (all of V0 when shorter), left the rest."""
+    if not _ret_ok(v, out):
+        return False
+    n = Min(k, st.nV)
+    wcheck_inv(v, st.s)
+    v.check('returns-the-next-bytes-of-the-view', is_window(st.w, out.value, st.a0, n))
+    v.check('view-advances-by-exactly-the-returned-bytes', wcoupled(v, st, n))
+    return True
+
+
+@harness(PROP, SR + '._read', name='w__read', setup=_w)
+def w__read(v):
+    st = mkw(v)
+    k = v.int('size', 0)  # _read_until calls it with sizes beyond the normalized bound, so: any size >= 0
+    out = v.call(st.s, k)
+    if wpost_read(v, st, out, k):
+        if st.nB >= k:
+            v.cover('from-buffer')
+        elif st.nB == 0:
+            if k >= st.cs:
+                v.cover('pass-through')
+        elif k - st.nB >= st.cs:
+            v.cover('buffer-plus-large-read')
+        else:
+            v.cover('buffer-plus-refill')
+
+
+def wnorm_size(size, st):
+    mx = st.rem + st.nB
+    if size is None:
+        return mx
+    return Ite(Or(size == -1, size > mx), mx, size)
+
+
+@harness(PROP, SR + '.read', name='w_read', setup=_w, inline=[SR + '._normalize_size', SR + '._read'])
+def w_read(v):
+    st = mkw(v)
+    size, kind = size_arg(v)
+    omitted = kind == 0 and v.choose(2, 'size-omitted?')
+    out = v.call(st.s) if omitted else v.call(st.s, size)
+    if wpost_read(v, st, out, wnorm_size(size, st)):
+        if kind != 1:
+            v.check('unsized-read-returns-the-whole-view', And(is_window(st.w, out.value, st.a0, st.nV), wcoupled(v, st, st.nV)))
+        else:
+            v.check('sized-read-bounded', Len(out.value) <= size)
+        v.cover('returns')
+
+
+# --- _read_until with _finalize_read_until, _read, peek, _fill_buffer inlined ----------------------------------------------
 
 RU_INLINE = [SR + '._finalize_read_until', SR + '._read', SR + '.peek', SR + '._fill_buffer', SR + '._normalize_size']
 
 
-def _ru_setup(strong):
-    def setup(reg, ex):
-        _with_pr(reg, ex)
+def _ru_loop(reg, ex):
+    _w(reg, ex)
 
-        def linv(L):
-            s = L['self']
-            rf = s._read_func
-            J = Joined(L['result'])
-            B = Sub(s._buffer, s._buffer_pos, s._buffer_len - s._buffer_pos)
-            S = Sub(rf.src, rf.pos, s._max_bytes_remaining)
-            have = L['have_bytes']
-            base = And(
-                have == Len(J),
-                J == Sub(rf.st.V0, 0, have),            # the backlog is what was consumed so far ...
-                coupled_term(rf.st, s._buffer, s._buffer_len, s._buffer_pos, s._max_bytes_remaining, rf, have),  # ... and the reader stands right behind it
-                have <= L['size'],
-            )
-            if not strong:
-                return base
-            # no occurrence of the delimiter starts inside the backlog
-            return And(base, Or(rf.i0 < 0, rf.i0 >= have))
+    def linv(L):
+        s = L['self']
+        rf = s._read_func
+        st = rf.st
+        J = WJoined(L['result'])
+        have = L['have_bytes']
+        return And(
+            have == Len(J),
+            is_window(st.w, J, st.a0, have),  # the backlog is what was taken so far, in order ...
+            wcoupled_term(st, s._buffer, s._buffer_len, s._buffer_pos, s._max_bytes_remaining, rf, have),  # ... the reader stands right behind it
+            have <= L['size'],
+            Or(st.j0 == -1, st.j0 >= st.a0 + have),  # ... and no occurrence of the delimiter starts inside the backlog
+        )
 
-        reg.loops[(SR + '._read_until', 'while#0')] = LoopSpec(inv=linv, lists={'result': 'bytes'})
-
-    return setup
+    reg.loops[(SR + '._read_until', 'while#0')] = LoopSpec(inv=linv, lists={'result': WinList.of})
 
 
-def read_until_spec(v, st, delim, size):
-    """Flat cursor: stop at the first occurrence of the delimiter, at `size`, or at the end -- whichever comes first."""
-    i0 = Find(st.V0, delim)
-    return i0, Ite(i0 >= 0, Min(size, i0), Min(size, st.nV))
+def until_spec(st, x, size):
+    """Flat cursor at T-index x: stop at the first delimiter occurrence lying wholly inside the view, at `size`, or at the end."""
+    w = st.w
+    j = w.first(x)
+    found = And(j != -1, j + w.dl <= st.end)
+    return found, j, Ite(found, Min(size, j - x), Min(size, st.end - x))
 
 
-def post_read_until(v, st, out, delim, size, consume, strong):
-    s = st.s
-    dl = Len(delim)
-    i0, tgt = read_until_spec(v, st, delim, size)
+def delim_at(st, p):
+    """The view continues with the delimiter at T-index p."""
+    return And(st.w.first(p) == p, p + st.w.dl <= st.end)
+
+
+def wpost_until(v, st, out, size, consume):
+    s, w = st.s, st.w
+    dl = w.dl
     DelimiterError = v.real('falcon.errors:DelimiterError')
     bad = Or(dl < 1, dl > st.cs)
     v.check('delimiter-length-outside-1..chunk_size-raises-valueerror', Iff(out.exc is not None and out.exc.isa(ValueError), bad))
     if out.exc is not None and out.exc.isa(ValueError):
-        v.check('valueerror-consumes-nothing', And(view(v, s) == st.V0, st.rf.pos == 0))
-        return
+        v.check('valueerror-consumes-nothing', And(wcoupled(v, st, 0), st.rf.pos == 0))
+        v.cover('bad-delimiter')
+        return None
+    found, j, tgt = until_spec(st, st.a0, size)
     if out.exc is not None:
         v.check('only-delimiter-error-escapes', And(out.exc.isa(DelimiterError), bool(consume)))
-        check_inv(v, s)
-        if strong:
-            v.check('delimiter-error-only-if-the-bytes-after-the-result-are-not-the-delimiter', Sub(st.V0, tgt, dl) != delim)
+        wcheck_inv(v, s)
+        v.check('delimiter-error-only-if-the-bytes-after-the-result-are-not-the-delimiter', Not(delim_at(st, st.a0 + tgt)))
         v.cover('delimiter-error')
-        return
+        return None
     ret = out.value
     n = Len(ret)
     c = dl if consume else 0
-    v.check('returns-the-next-bytes-of-the-view', ret == Sub(st.V0, 0, n))
+    wcheck_inv(v, s)
+    v.check('returns-the-next-bytes-of-the-view', is_window(w, ret, st.a0, n))
     v.check('never-more-than-size', n <= size)
-    v.check('view-advances-by-the-returned-bytes-plus-the-consumed-delimiter', coupled(v, st, n + c))
+    v.check('stops-at-the-first-delimiter-or-size-or-end', n == tgt)
+    v.check('returned-bytes-contain-no-delimiter', Or(j == -1, j + dl > st.a0 + n))
     if consume:
-        v.check('consumed-bytes-are-the-delimiter', Sub(st.V0, n, dl) == delim)
-    check_inv(v, s)
-    if strong:
-        v.check('stops-at-the-first-delimiter-or-size-or-end', n == tgt)
-        v.check('returned-bytes-contain-no-delimiter', Not(SStr(_s(ret), 'bytes').contains(delim)) if is_sym(ret) or is_sym(delim) else delim not in ret)
+        v.check('consumed-bytes-are-the-delimiter', delim_at(st, st.a0 + n))
+    v.check('view-advances-by-the-returned-bytes-plus-the-consumed-delimiter', wcoupled(v, st, n + c))
     v.cover('returns')
+    if found:
+        if n < size:
+            v.cover('stops-at-delimiter')
+    return n
 
 
-def _read_until(v, strong):
-    st = mk(v)
-    delim = v.bytes('delimiter')
+def w__read_until(v):
+    st = mkw(v, delim='any')
     size = v.int('size', 0)
-    v.assume(size <= st.rem + st.nB)
+    v.assume(size <= st.rem + st.nB)  # sizes come from _normalize_size
     consume = bool(v.choose(2, 'consume_delimiter'))
-    st.rf.V0 = st.V0
-    st.rf.st = st
-    st.rf.i0 = Find(st.V0, delim)
-    out = v.call(st.s, delim, size, consume)
-    post_read_until(v, st, out, delim, size, consume, strong)
+    st.j0 = st.w.first(st.a0) if not v.concrete else None
+    out = v.call(st.s, st.delim, size, consume)
+    wpost_until(v, st, out, size, consume)
 
 
 for _c in (0, 1):
-    harness(PROP, SR + '._read_until', name='_read_until[prefix,consume=%d]' % _c, setup=_ru_setup(False), inline=RU_INLINE,
-            fix={'consume_delimiter': _c})(lambda v: _read_until(v, False))
+    harness(PROP, SR + '._read_until', name='w__read_until[consume=%d]' % _c, setup=_ru_loop, inline=RU_INLINE, fix={'consume_delimiter': _c})(w__read_until)
+
 
 ASSUMPTIONS = []
 NOT_DECIDED = []
